@@ -163,10 +163,23 @@ func init() {
 			"http://[::1]:80/", "http://[2001:db8::1]/", "http://10.0.0.1/", "http://10.0.0.1:8080/", "ldap://ldap.example.com/dc=x", "//relative", "/path/only", "http://", "http:///nohost",
 			"http://exa_mple.com/", "http://-bad.com/", "HTTP://EXAMPLE.COM/", "http://example.com./", "http://localhost/", "http://a/", "tel:+1-555-0100", "file:///etc/passwd", "http://ex ample.com/",
 			"http://example.com:port/", "http://xn--caf-dma.com/", "http://*.example.com/", "data:text/plain,hi", "http://@example.com/", "http://user@/"}
+		for _, scheme := range []string{"http", "https", "ldap"} {
+			for _, ui := range []string{"", "user@", "user:pw@"} {
+				for _, host := range []string{"example.com", "www.example.com", "localhost", "intranet", "a", "10.0.0.1", "[::1]", "[2001:db8::1]", "exa_mple.com", "-bad.com", "*.example.com", "", "xn--caf-dma.com", "example.com.", "EXAMPLE.COM"} {
+					for _, port := range []string{"", ":", ":80", ":8443", ":0", ":65536"} {
+						if tier() != "thorough" && ui != "" && port != "" && scheme != "https" {
+							continue
+						}
+						uris = append(uris, scheme+"://"+ui+host+port+"/p")
+					}
+				}
+			}
+		}
 		for _, u := range uris {
 			tmpl := leafTemplate()
 			names := []genName{{6, []byte(u)}}
-			tmpl.ExtraExtensions = append(tmpl.ExtraExtensions, generalNamesExt(asn1SAN, append([]genName{{2, []byte("example.com")}}, names...), false), generalNamesExt(asn1IAN, names, false))
+			tmpl.DNSNames = nil
+			tmpl.ExtraExtensions = append(tmpl.ExtraExtensions, generalNamesExt(asn1SAN, names, false), generalNamesExt(asn1IAN, names, false))
 			der, c, err := issue(tmpl, nil)
 			if err != nil {
 				continue
